@@ -41,12 +41,12 @@ func specs() map[string]*propSpec {
 	m["C12"] = &propSpec{id: "C12", engine: "E2-call-history-simulator", level: "exploration",
 		rule:     "seeded histories of 10..600 heterogeneous calls (all struct entry points, Var, Map, Url, GetOnlyExplainErr, GenValidKV, ValidNamesSplit, GetDumpStructStr) by one simulated client, a quarter of them followed by a seeded permutation of the same calls; pools recycle LIFO / oldest-first / random with injected pool faults; small caches; a rule-text swarm for Var (every built-in rule with several argument variants); oracles: result equals the oracle process's (cross-checked for a quarter of the histories against a brand-new oracle process that sees the calls in reverse order), inputs deep-equal to a twin, every string handed out still reads as when handed out after the pools were churned; non-trivial = at least one pooled object was recycled and >= 2 calls ran",
 		assume:   e2assume,
-		quick:    budget{race: false, runs: 8000, maxWall: 90 * time.Second},
+		quick:    budget{race: false, runs: 6400, maxWall: 150 * time.Second},
 		thorough: budget{race: false, runs: 4000000, maxWall: 10 * time.Minute}}
 	m["C11"] = &propSpec{id: "C11", engine: "E2-call-history-simulator", level: "exploration",
 		rule:     "seeded schedules of 2..32 simulated clients x 1..8 calls (all entry points) over shared and private types (a third of the runs in focus mode: all clients inside the same one or two types or rule family) with small, default and overflowing caches, bare sync.Map / NewLRU configurations, cold-process runs, pool policies and pool/cache faults, under the race detector with the simulator's hand-offs hidden; every call's result compared with its solo result from the oracle process; non-trivial = >= 2 calls of different clients overlapped and (a pooled object crossed clients or a cached entry was hit)",
 		assume:   append(e2assume, "a race report is a verdict of Go's race detector on the simulated schedule; pools inside the standard library keep the real sync.Pool and can mask (never invent) a report"),
-		quick:    budget{race: true, runs: 3600, maxWall: 100 * time.Second},
+		quick:    budget{race: true, runs: 2600, maxWall: 150 * time.Second},
 		thorough: budget{race: true, runs: 3000000, maxWall: 10 * time.Minute}}
 	return m
 }
